@@ -265,10 +265,14 @@ theorem sortedLookup_search_correct (f : Nat → Bool) (k n : Nat) (hk : k ≤ n
 theorem expectWraps_ge_actual (d : Nat) (h : d < 2 ^ 62) :
     ((d / 1000 / 2 ^ 32 : Nat) : Int) ≤ (i64 d + 1000).tdiv wrapNs := expectWraps_ge_actual' d h
 
-/-! ## full statements that are NOT proved here (they rest on the correspondence check alone)
+/-! ## full statements (decided in Pk/Props/C01Full.lean)
 
-  Kept visible so that nothing is weakened silently. The tie checks each of them on every generated
-  stream set (observable lines `obs`/`src` of the register machine, and the Go round-trip oracle). -/
+  Kept here exactly as first written. `RoundtripPackets` and `LookupByFirstPacketExact` are FALSE as written
+  (a capture file name containing a NUL byte is cut by the reader: `roundtrip_packets_counterexample`,
+  `lookup_by_first_packet_counterexample`); with the input condition `NamesWF` (no NUL in file names) they are
+  proved as `roundtrip_packets'`, `lookup_by_first_packet_exact'`. `RoundtripPayload` is proved as
+  `roundtrip_payload'` for streams of less than 2^64 payload bytes. The tie checks each of them on every
+  generated stream set as well (observable lines `obs`/`src`, and the Go round-trip oracle). -/
 
 /-- packets as `Stream.Packets` must return them: one entry per source reference, in the writer's order,
     time truncated to µs relative to the first packet -/
